@@ -60,8 +60,8 @@ def run(ctx):
             pr = gen_program.generate(rng, run_.drv, rom="low_rom", features={"incbin": False})
             lines = pr["src"].rstrip("\n").split("\n")
             cases.append((pr["src"], "none"))
-            for _ in range(6 if tier == "quick" else 8):
-                kind, stmt = rng.choice(FAULTS)
+            for j in range(6 if tier == "quick" else 8):
+                kind, stmt = FAULTS[(i * 8 + j) % len(FAULTS)]   # every fault kind is used in every run
                 # only at top-level positions (outside every block / macro body), so that the statement is certainly reached
                 depth, tops = 0, [0]
                 for li, l in enumerate(lines):
